@@ -1,4 +1,4 @@
-From MST Require Import Base TreeM Diff Spec TreeUpsert TreeHash TreeInv TreeCanon C01 TreeRanges Intervals DiffTrees TreeRL.
+From MST Require Import Base TreeM Diff Spec TreeUpsert TreeHash TreeInv TreeCanon HistIndep TreeRanges Intervals DiffTrees TreeRL.
 
 Section Top.
 Variable digest V : Type.
